@@ -99,3 +99,61 @@ def install_generators(R):
         q = DNSQuestion(g.rng.choice(names), g.rng.choice([12, 1, 28, 33, 16, 255, 47, 99]), 1)
         return {'self': h, 'question': q}
     R.generators[(Q, 'QueryHandler._get_answer_strategies')] = g_strat
+
+
+def install_rrset(R):
+    D = 'zeroconf._dns'
+    R.shape('DNSRRSet', {'_records': 'list[DNSRecord]', '_lookup': 'opt[dict[DNSRecord, DNSRecord]]'})
+    # the lookup table maps an identity to the LAST listed record of that identity
+    LOOK = ('forall("i:ident", lambda i: {L}.has(i) == exists("j:int", lambda j: 0 <= j and j < len(self._records) and ident(self._records[j]) == i)) and '
+            'forall("i:ident", lambda i: implies({L}.has(i), exists("j:int", lambda j: 0 <= j and j < len(self._records) and {L}[i] is self._records[j] '
+            '   and ident(self._records[j]) == i)))')
+    R.spec('rrset_ok', [('self', 'DNSRRSet')], 'bool',
+           'forall("j:int", lambda j: implies(0 <= j and j < len(self._records), self._records[j] is not None)) and '
+           'implies(self._lookup is not None, %s)' % LOOK.format(L='self._lookup'))
+    R.contract(D, 'DNSRRSet._get_lookup', P, returns='dict[DNSRecord, DNSRecord]', result_alias='self._lookup',
+               requires=['rrset_ok(self)'], modifies=['self._lookup'],
+               ensures=['self._lookup is not None', 'rrset_ok(self)', 'list_eq(self._records, old(self._records))'])
+    R.contract(D, 'DNSRRSet.suppresses', P, params={'record': 'DNSRecord'}, returns='bool',
+               requires=['rrset_ok(self)', 'record is not None'], modifies=['self._lookup'],
+               ensures=['rrset_ok(self)',
+                        # suppressed only by a listed record of the same identity with more than half the TTL
+                        'implies(result, exists("j:int", lambda j: 0 <= j and j < len(self._records) and ident(self._records[j]) == ident(record) '
+                        '   and self._records[j].ttl > record.ttl / 2))',
+                        # never suppressed when no listed record has that identity, or none of them has more than half
+                        'implies(not exists("j:int", lambda j: 0 <= j and j < len(self._records) and ident(self._records[j]) == ident(record) '
+                        '   and self._records[j].ttl > record.ttl / 2), not result)',
+                        # a single listed record of that identity decides
+                        'implies(forall("j:int, m:int", lambda j, m: implies(0 <= j and j < len(self._records) and 0 <= m and m < len(self._records) '
+                        '   and ident(self._records[j]) == ident(record) and ident(self._records[m]) == ident(record), j == m)), '
+                        '   result == exists("j:int", lambda j: 0 <= j and j < len(self._records) and ident(self._records[j]) == ident(record) '
+                        '   and self._records[j].ttl > record.ttl / 2))'])
+
+
+
+
+def install_rrset_generators(R):
+    def g_rr(g):
+        from zeroconf._dns import DNSRRSet
+        import copy
+        recs = [g.record() for _ in range(g.rng.randint(0, 4))]
+        if recs and g.rng.random() < 0.5:
+            c = copy.copy(g.rng.choice(recs))
+            c.ttl = g.rng.choice([1, 60, 120, 4500])
+            recs.append(c)
+        rr = DNSRRSet(recs)
+        if g.rng.random() < 0.4:
+            rr._get_lookup()
+        return rr, recs
+
+    def g_sup(g):
+        import copy
+        rr, recs = g_rr(g)
+        if recs and g.rng.random() < 0.7:
+            r = copy.copy(g.rng.choice(recs))
+            r.ttl = g.rng.choice([1, 60, 119, 120, 121, 240, 241, 4500, 9000])
+        else:
+            r = g.record()
+        return {'self': rr, 'record': r}
+    R.generators[('zeroconf._dns', 'DNSRRSet._get_lookup')] = lambda g: {'self': g_rr(g)[0]}
+    R.generators[('zeroconf._dns', 'DNSRRSet.suppresses')] = g_sup
